@@ -352,8 +352,11 @@ class Gen:
         avail = {"subs": [], "macros": [], "consts": [], "app": p.get("app", True), "itxn": p.get("itxn", False)}
         imports_for_next = []
         # libraries: each later one imports everything from the earlier ones (a chain of imports)
+        by_path = p.get("by_path", False)      # hazard file names: modules are loaded by file path, not by `import`
+        loads = []
         for i, rel in enumerate(layout):
-            mod = rel[:-3].replace("/", ".")
+            mod = ("hz_mod%d" % (i + 1)) if by_path else rel[:-3].replace("/", ".")
+            loads.append((rel, mod))
             w, names = self.lib(rel, i + 1, list(imports_for_next), avail, p.get("subs", 2), p.get("macros", 1), p.get("consts", 1),
                                 filler if i != p.get("long_file", -1) else p.get("long_filler", filler))
             writers.append(w)
@@ -361,7 +364,7 @@ class Gen:
             imports_for_next.append("from %s import %s" % (mod, ", ".join(allnames)) if rng.random() < 0.6 or True else "import %s" % mod)
             for k in names:
                 avail[k] += names[k]
-            if "/" in rel:
+            if "/" in rel and not by_path:
                 d = rel.rsplit("/", 1)[0]
                 parts = d.split("/")
                 for j in range(len(parts)):
@@ -370,6 +373,13 @@ class Gen:
         self.budget = p.get("stmts", 40)
         w = FileWriter("main.py", 0)
         w.add(HEADER.rstrip("\n"))
+        if by_path:
+            w.add("import importlib.util as _ilu, os as _os")
+            w.add("def _c15_load(rel, name):")
+            w.add("    spec = _ilu.spec_from_file_location(name, _os.path.join(_os.path.dirname(_os.path.abspath(__file__)), rel))")
+            w.add("    m = _ilu.module_from_spec(spec); sys.modules[name] = m; spec.loader.exec_module(m); return m")
+            for rel, mod in loads:
+                w.add("_c15_load(%r, %r)" % (rel, mod))
         for l in imports_for_next:
             w.add(l)
         w.add("")
